@@ -178,7 +178,7 @@ def validate_trace(ctx, name, trace_path, index, mode, legacy):
         m = re.search(r'(\d+) states generated, (\d+) distinct states found', out)
         if m:
             states += int(m.group(2))
-        ctx.cov['labels']['TraceEvents_outside_model'] = ctx.cov['labels'].get('TraceEvents_outside_model', 0) + out.count('"GODEC-DC"')
+        ctx.cov['labels']['TraceEvents_outside_model'] = ctx.cov['labels'].get('TraceEvents_outside_model', 0) + out.count('"GODEC-DC"') + out.count('"GOENC-DC"')
         if 'Invariant NoMismatch is violated' in out:
             l, bad = _tlc_last_state(out)
             if l is None:
@@ -250,6 +250,8 @@ def B_trace(name, fam, n, maxops=10, mode='value', legacy=False, plain=False, ca
                     lines[i] = l.replace('"bytes":[1', '"bytes":[88,1', 1); break
                 if mode != 'bytes' and '"ok":true' in l:
                     lines[i] = l.replace('"ok":true', '"ok":false', 1); break
+                if mode != 'bytes' and '"ev":"goenc"' in l and '"stream_ok":true' in l:
+                    lines[i] = l.replace('"stream_ok":true', '"stream_ok":false', 1); break
                 if mode != 'bytes' and '"ev":"godec"' in l and '"err":false' in l:
                     lines[i] = l.replace('"err":false', '"err":true', 1); break
             open(trace, 'w').write('\n'.join(lines))
@@ -938,3 +940,8 @@ _addB('C17', [B_trace('tg', 'godec', 500)], [B_trace('tg', 'godec', 10000)],
       'texts aimed at them (fitting values, wrong kinds, member names matching exactly / by case folding incl. U+212A and U+017F / not at all, repeated '
       'names, base64, int64 range) decoded with Unmarshal, Decoder and Decoder+UseNumber: TLC evaluates GoDec!Dec on the recorded type and text and '
       'rejects the trace unless the value stored and the presence of an error are what the decoding rules say')
+_addB('C17', [B_trace('te', 'goenc', 800)], [B_trace('te', 'goenc', 15000)],
+      'random Go values of random types (depth 3: nil and empty containers, strings of any bytes, floats in exponent form, omitempty / ,string / "-" / '
+      'embedded fields, pointers, json.Number, values of types with MarshalJSON / MarshalText / RedirectMarshalJSON / TrustMarshalJSON) encoded with '
+      'MarshalEscaped (both settings), MarshalIndent and an Encoder: TLC evaluates GoEnc!GoMarshal on the recorded value and rejects the trace unless '
+      'the bytes are exactly those')
